@@ -129,6 +129,7 @@ type vHistory struct {
 	FinalUnload bool           `json:"final_unload"`
 	NReq        int            `json:"nreq"`
 	Spread      bool           `json:"sched_spread,omitempty"` // OLLAMA_SCHED_SPREAD=1: placement goes through the all-GPUs path
+	CPUFreeMB   int            `json:"cpu_free_mb,omitempty"`  // >0: system memory for CPU loads; every live CPU runner takes its plan's VRAMMB out of it (0: 64 GiB, constant)
 }
 
 var vDelayPoints = []string{
@@ -312,8 +313,16 @@ func (m *vMock) Completion(ctx context.Context, req llm.CompletionRequest, fn fu
 func (m *vMock) Embedding(ctx context.Context, input string) ([]float32, error) { return nil, nil }
 func (m *vMock) Tokenize(ctx context.Context, content string) ([]int, error)    { return nil, nil }
 func (m *vMock) Detokenize(ctx context.Context, tokens []int) (string, error)   { return "", nil }
-func (m *vMock) EstimatedVRAM() uint64                                          { return uint64(m.plan.VRAMMB) << 20 }
-func (m *vMock) EstimatedTotal() uint64                                         { return uint64(m.plan.VRAMMB) << 20 }
+func (m *vMock) onCPU() bool                                                    { return len(m.gpus) > 0 && m.gpus[0].Library == "cpu" }
+
+// a runner placed on the CPU holds system memory, not VRAM
+func (m *vMock) EstimatedVRAM() uint64 {
+	if m.onCPU() {
+		return 0
+	}
+	return uint64(m.plan.VRAMMB) << 20
+}
+func (m *vMock) EstimatedTotal() uint64 { return uint64(m.plan.VRAMMB) << 20 }
 func (m *vMock) EstimatedVRAMByGPU(gpuID string) uint64 {
 	for _, g := range m.gpus {
 		if g.ID == gpuID {
@@ -467,6 +476,23 @@ func newVWorld(t testing.TB, h *vHistory) *vWorld {
 		gi := discover.GpuInfo{Library: "cpu", ID: "0"}
 		gi.FreeMemory = 64 << 30
 		gi.TotalMemory = 64 << 30
+		if h.CPUFreeMB > 0 {
+			// what the live CPU runners hold is gone from the free system memory
+			free := uint64(h.CPUFreeMB) << 20
+			gi.TotalMemory = free
+			w.mu.Lock()
+			for _, m := range w.mocks {
+				if m.onCPU() && m.closeEndSeq.Load() == 0 {
+					if use := m.EstimatedTotal(); use < free {
+						free -= use
+					} else {
+						free = 0
+					}
+				}
+			}
+			w.mu.Unlock()
+			gi.FreeMemory = free
+		}
 		return discover.GpuInfoList{gi}
 	}
 	s.newServerFn = w.newServer
